@@ -1,5 +1,5 @@
 (* Wire codecs: sx <-> model values.  Only used by the correspondence driver. *)
-From HT Require Import Model.Str Model.Sx Model.Tree Model.Render.
+From HT Require Import Model.Str Model.Sx Model.Tree Model.Render Model.Concat.
 
 Definition aval_of_sx (x : sx) : option aval :=
   match x with
@@ -91,4 +91,25 @@ Definition sx_piece (p : piece) : sx :=
   | PClose n b => L [A 3; sx_str n; sx_bool b]
   | PTxt s => L [A 4; sx_str s]
   | PRaw s => L [A 5; sx_str s]
+  end.
+
+(* C04 concatenation expressions *)
+Fixpoint cexpr_of_sx (x : sx) : option cexpr :=
+  match x with
+  | L [A 0; A k; s] =>
+    match str_of_sx s with
+    | Some s' => if k =? 0 then Some (Leaf (OStr s')) else if k =? 1 then Some (Leaf (OHtml s'))
+                 else Some (Leaf (OObj s'))
+    | None => None
+    end
+  | L [A 1; a; b] =>
+    match cexpr_of_sx a, cexpr_of_sx b with
+    | Some a', Some b' => Some (Add a' b')
+    | _, _ => None
+    end
+  | _ => None
+  end.
+Definition sx_cval (v : cval) : sx :=
+  match v with
+  | CStr s => L [A 0; sx_str s] | CHtml s => L [A 1; sx_str s] | CObj s => L [A 2; sx_str s]
   end.
